@@ -4,12 +4,14 @@ package main
 
 import (
 	"fmt"
+	_ "io"
 	"go/constant"
 	"go/token"
 	"go/types"
 	"os"
 	"sort"
 	"strings"
+	"time"
 
 	"golang.org/x/tools/go/ssa"
 )
@@ -23,6 +25,7 @@ type VC struct {
 	Note   string
 	Term   string
 	KF     string // known-finding id this VC is the "matching" half of
+	Ms     int64
 }
 
 type LoopInfo struct {
@@ -71,6 +74,15 @@ type Engine struct {
 	strIDs    map[string]uint64
 	inputsInternal []string
 	redirects map[string]*ssa.Function
+	pending   []pendVC
+	PruneQueries int
+	chunks    []*chunk
+	reaches   []asyncVC
+	real      []*Term
+	chunkBase int
+	chunkRealBase int
+	FeasStats map[string]int
+	models    []*cachedModel
 }
 
 type hashApp struct {
@@ -80,10 +92,11 @@ type hashApp struct {
 }
 
 func NewEngine(prog *ssa.Program, solver *Solver) *Engine {
-	return &Engine{prog: prog, solver: solver, globals: map[*ssa.Global]*Cell{}, initDone: map[*ssa.Package]bool{}, initBusy: map[*ssa.Package]bool{},
+	theEngine = &Engine{prog: prog, solver: solver, globals: map[*ssa.Global]*Cell{}, initDone: map[*ssa.Package]bool{}, initBusy: map[*ssa.Package]bool{},
 		info: map[*ssa.Function]*FnInfo{}, locks: map[*Cell]*Term{}, Unwind: 12, MaxDepth: 60, FnCount: map[string]int{}, Externals: map[string]int{},
-		StubsUsed: map[string]int{}, params: map[string]int64{}, inputW: map[string]int{},
+		StubsUsed: map[string]int{}, FeasStats: map[string]int{}, params: map[string]int64{}, inputW: map[string]int{},
 		logf: func(format string, a ...interface{}) { fmt.Fprintf(os.Stderr, format+"\n", a...) }}
+	return theEngine
 }
 
 func (e *Engine) pos(p token.Pos) string {
@@ -106,7 +119,21 @@ func (e *Engine) assume(t *Term) {
 		return
 	}
 	e.Assumes++
+	e.real = append(e.real, t)
 	e.solver.Assert(t)
+}
+
+func (e *Engine) feasibleW(g *Term, why string) bool {
+	t0 := time.Now()
+	r := e.feasible(g)
+	if !g.IsFalse() && !g.IsTrue() {
+		e.FeasStats[why+":n"]++
+		e.FeasStats[why+":ms"] += int(time.Since(t0).Milliseconds())
+		if !r {
+			e.FeasStats[why+":unsat"]++
+		}
+	}
+	return r
 }
 
 func (e *Engine) feasible(g *Term) bool {
@@ -116,34 +143,221 @@ func (e *Engine) feasible(g *Term) bool {
 	if g.IsTrue() {
 		return true
 	}
-	r, _, _ := e.solver.Check(g, false)
+	// counterexample cache: a model of an earlier query that still satisfies every assumption and makes g true
+	for _, cm := range e.models {
+		ok := true
+		for cm.valid < len(e.solver.assumptions) {
+			if Eval(e.solver.assumptions[cm.valid], cm.m, cm.memo) == 0 {
+				ok = false
+				break
+			}
+			cm.valid++
+		}
+		if !ok {
+			cm.dead = true
+			continue
+		}
+		if Eval(g, cm.m, cm.memo) != 0 {
+			e.FeasStats["cache-hit"]++
+			return true
+		}
+	}
+	// drop dead models
+	live := e.models[:0]
+	for _, cm := range e.models {
+		if !cm.dead {
+			live = append(live, cm)
+		}
+	}
+	e.models = live
+	r, m, _ := e.solver.Check(g, true)
+	if r == Sat && m != nil {
+		cm := &cachedModel{m: m, memo: map[*Term]uint64{}, valid: len(e.solver.assumptions)}
+		e.models = append([]*cachedModel{cm}, e.models...)
+		if len(e.models) > 12 {
+			e.models = e.models[:12]
+		}
+	}
 	return r != Unsat
 }
 
-// vc discharges a verification condition "cond must be unsatisfiable" eagerly, then assumes its negation.
+type cachedModel struct {
+	m     map[string]uint64
+	memo  map[*Term]uint64
+	valid int
+	dead  bool
+}
+
+// A pending VC: "cond must be unsatisfiable under everything assumed before it".
+type pendVC struct {
+	v     *VC
+	cond  *Term
+	nReal int // number of harness/engine assumptions (e.real) in force when the VC was raised
+}
+
+// chunk: consecutive VCs decided by one query OR_j (cond_j ∧ real assumptions raised inside the chunk before j),
+// on top of the assumptions in force when the chunk started. A model is attributed to the first VC it violates.
+type chunk struct {
+	pend     []pendVC
+	base     int // len(solver.assumptions) at chunk start
+	realBase int
+	fut      *Future
+}
+
+const chunkSize = 120
+
+func (e *Engine) flush() {
+	if len(e.pending) == 0 {
+		return
+	}
+	c := &chunk{pend: e.pending, base: e.chunkBase, realBase: e.chunkRealBase}
+	e.pending = nil
+	c.fut = e.solver.CheckAsyncBase(e.chunkQuery(c, nil), c.base, true)
+	e.chunks = append(e.chunks, c)
+}
+
+// chunkQuery builds the disjunction for the VCs not yet resolved; found[j] marks VCs already attributed a model.
+func (e *Engine) chunkQuery(c *chunk, found map[int]bool) *Term {
+	var ds []*Term
+	var earlier []*Term // negations of already-found violations that precede j
+	for j := range c.pend {
+		if found[j] {
+			earlier = append(earlier, Not(e.chunkCond(c, j)))
+			continue
+		}
+		ds = append(ds, And(append([]*Term{e.chunkCond(c, j)}, earlier...)...))
+	}
+	return Or(ds...)
+}
+
+func (e *Engine) chunkCond(c *chunk, j int) *Term {
+	p := c.pend[j]
+	return And(append([]*Term{p.cond}, e.real[c.realBase:p.nReal]...)...)
+}
+
+// vc records a verification condition "cond must be unsatisfiable" and assumes its negation for what follows.
 func (e *Engine) vc(kind, label string, p token.Pos, cond *Term) *VC {
 	if cond.IsFalse() {
 		return nil
 	}
-	v := &VC{Kind: kind, Label: label, Pos: e.pos(p)}
 	if e.bestEffort > 0 {
 		return nil
 	}
-	r, m, note := e.solver.Check(cond, true)
-	v.Result = r.String()
-	v.Note = note
-	v.Term = cond.String()
-	if r == Sat {
-		v.Model = e.inputModel(m)
+	v := &VC{Kind: kind, Label: label, Pos: e.pos(p)}
+	if kind != "panic" {
+		v.Term = cond.String()
 	}
 	e.VCs = append(e.VCs, v)
-	if e.trace {
-		e.logf("VC %s %s @%s: %s", kind, label, v.Pos, v.Result)
+	if kind == "reach" {
+		e.reaches = append(e.reaches, asyncVC{v, e.solver.CheckAsyncBase(cond, len(e.solver.assumptions), true)})
+		return v
 	}
-	if kind != "reach" {
-		e.assume(Not(cond))
+	if len(e.pending) == 0 {
+		e.chunkBase = len(e.solver.assumptions)
+		e.chunkRealBase = len(e.real)
+	}
+	e.pending = append(e.pending, pendVC{v, cond, len(e.real)})
+	e.solver.Assert(Not(cond))
+	if len(e.pending) >= chunkSize {
+		e.flush()
 	}
 	return v
+}
+
+type asyncVC struct {
+	v   *VC
+	fut *Future
+}
+
+// finish waits for all outstanding queries and fills in the VC records.
+func (e *Engine) finish() {
+	e.flush()
+	for _, a := range e.reaches {
+		a.fut.Wait()
+		a.v.Result = a.fut.Res.String()
+		a.v.Note = a.fut.Note
+		a.v.Ms = a.fut.Ms
+		if a.fut.Res == Sat {
+			a.v.Model = e.inputModel(a.fut.Model)
+		}
+	}
+	for _, c := range e.chunks {
+		e.resolveChunk(c)
+	}
+}
+
+func (e *Engine) resolveChunk(c *chunk) {
+	found := map[int]bool{}
+	fut := c.fut
+	for {
+		fut.Wait()
+		switch fut.Res {
+		case Unsat:
+			for j, p := range c.pend {
+				if !found[j] {
+					p.v.Result = "unsat"
+					p.v.Note = fmt.Sprintf("chunk of %d; %s", len(c.pend), fut.Note)
+				}
+			}
+			c.pend[0].v.Ms += fut.Ms
+			return
+		case Sat:
+			memo := map[*Term]uint64{}
+			hit := -1
+			for j := range c.pend {
+				if found[j] {
+					continue
+				}
+				if Eval(e.chunkCond(c, j), fut.Model, memo) != 0 {
+					hit = j
+					break
+				}
+			}
+			if hit < 0 {
+				// model does not evaluate any member to true (incomplete model): decide members one by one
+				e.resolveIndividually(c, found, "model evaluation failed")
+				return
+			}
+			p := c.pend[hit]
+			p.v.Result = "sat"
+			p.v.Model = e.inputModel(fut.Model)
+			p.v.Note = fut.Note
+			p.v.Ms = fut.Ms
+			found[hit] = true
+			q := e.chunkQuery(c, found)
+			fut = e.solver.CheckAsyncBase(q, c.base, true)
+		default:
+			e.resolveIndividually(c, found, "chunk query inconclusive: "+fut.Note)
+			return
+		}
+	}
+}
+
+func (e *Engine) resolveIndividually(c *chunk, found map[int]bool, why string) {
+	var earlier []*Term
+	type job struct {
+		j   int
+		fut *Future
+	}
+	var jobs []job
+	for j := range c.pend {
+		cj := e.chunkCond(c, j)
+		if !found[j] {
+			q := And(append([]*Term{cj}, earlier...)...)
+			jobs = append(jobs, job{j, e.solver.CheckAsyncBase(q, c.base, true)})
+		}
+		earlier = append(earlier, Not(cj))
+	}
+	for _, jb := range jobs {
+		jb.fut.Wait()
+		v := c.pend[jb.j].v
+		v.Result = jb.fut.Res.String()
+		v.Note = why + "; " + jb.fut.Note
+		v.Ms = jb.fut.Ms
+		if jb.fut.Res == Sat {
+			v.Model = e.inputModel(jb.fut.Model)
+		}
+	}
 }
 
 func (e *Engine) inputModel(m map[string]uint64) map[string]uint64 {
@@ -663,8 +877,22 @@ func (f *Frame) runLoop(L *LoopInfo) {
 		if bg.IsFalse() {
 			break
 		}
-		if !e.feasible(bg) {
+		if hg := f.guard[h]; hg != nil && bg == hg {
+			// the loop condition added nothing to the guard under which this iteration ran: no query needed
+			if it+1 >= unwind {
+				e.vc("unwind", fmt.Sprintf("loop in %s (bound %d)", fn.String(), unwind), L.header.Instrs[0].Pos(), bg)
+				break
+			}
+			continue
+		}
+		if !e.feasibleW(bg, "loop") {
+			if e.trace {
+				e.logf("LOOPQ unsat %s it=%d", e.pos(L.header.Instrs[0].Pos()), it)
+			}
 			break
+		}
+		if e.trace {
+			e.logf("LOOPQ sat %s it=%d", e.pos(L.header.Instrs[0].Pos()), it)
 		}
 		if it+1 >= unwind {
 			e.vc("unwind", fmt.Sprintf("loop in %s (bound %d)", fn.String(), unwind), L.header.Instrs[0].Pos(), bg)
@@ -778,7 +1006,7 @@ func (f *Frame) execBlock(b *ssa.BasicBlock) {
 		if r := recover(); r != nil {
 			if u, ok := r.(unsupportedErr); ok && e.bestEffort == 0 {
 				// an unsupported operation on an infeasible path is harmless
-				if !g.IsTrue() && !e.feasible(g) {
+				if !g.IsTrue() && !e.feasibleW(g, "unsupported-block") {
 					if e.trace {
 						e.logf("skipping infeasible block with unsupported op: %v", u)
 					}
@@ -792,6 +1020,7 @@ func (f *Frame) execBlock(b *ssa.BasicBlock) {
 		if p := instr.Pos(); p.IsValid() {
 			e.curPos = p
 		}
+		curGuard = g
 		f.exec(instr, g)
 	}
 }
@@ -803,4 +1032,24 @@ func (f *Frame) setEdge(from, to int, g *Term) {
 	} else {
 		f.edge[k] = g
 	}
+}
+
+// concretize returns the constant value t must have under guard g, if it has exactly one.
+func (e *Engine) concretize(t *Term, g *Term) (*Term, bool) {
+	if t.IsConst() {
+		return t, true
+	}
+	if e.bestEffort > 0 {
+		return nil, false
+	}
+	r, m, _ := e.solver.Check(g, true)
+	if r != Sat {
+		return nil, false
+	}
+	memo := map[*Term]uint64{}
+	v := BV(t.W, Eval(t, m, memo))
+	if r2, _, _ := e.solver.Check(And(g, Not(Eq(t, v))), false); r2 == Unsat {
+		return v, true
+	}
+	return nil, false
 }
